@@ -490,19 +490,23 @@ func init() {
 		return &CtxVal{blockTime: a[1].(*TimeVal), height: a[0].(*CtxVal).height}
 	})
 	reg("("+T+"Context).EventManager", func(e *Exec, fn *ssa.Function, a []Value) Value {
-		return &Opaque{name: "EventManager"}
+		return Iface{t: getOpaqueType("EventManager"), v: &Opaque{name: "EventManager"}}
 	})
-	reg("(*"+T+"EventManager).EmitEvents", func(e *Exec, fn *ssa.Function, a []Value) Value {
+	emitEvents := func(e *Exec, fn *ssa.Function, a []Value) Value {
 		for _, ev := range a[1].(Slice).data {
 			er := ev.(*Opaque).data.(eventRec)
 			e.env.events = append(e.env.events, er)
 		}
 		return nil
-	})
-	reg("(*"+T+"EventManager).EmitEvent", func(e *Exec, fn *ssa.Function, a []Value) Value {
+	}
+	emitEvent := func(e *Exec, fn *ssa.Function, a []Value) Value {
 		e.env.events = append(e.env.events, a[1].(*Opaque).data.(eventRec))
 		return nil
-	})
+	}
+	reg("(*"+T+"EventManager).EmitEvents", emitEvents)
+	reg("(*"+T+"EventManager).EmitEvent", emitEvent)
+	reg("EventManager.EmitEvents", emitEvents)
+	reg("EventManager.EmitEvent", emitEvent)
 	reg(T+"NewEvent", func(e *Exec, fn *ssa.Function, a []Value) Value {
 		er := eventRec{typ: a[0]}
 		for _, at := range a[1].(Slice).data {
